@@ -8,10 +8,12 @@ from .. import dbio
 from . import gen_db as G
 
 INVS = ["InvError", "InvNoRaise", "InvParentsKept", "InvWarning", "InvReplace", "InvUnique", "InvMerge", "InvLinks", "InvLinksReplace", "InvOneCandidate"]
-MC_CFG = "CONSTANT MaxArr = %d\nCONSTANT Wide = %s\nCONSTANT Quick = %s\nCONSTANT PrintMod = %d\nCONSTANT WordNA = {}\nCONSTANT Deviations = {%s}\nINIT Init\nNEXT Next\nCHECK_DEADLOCK FALSE\n"
+MC_CFG = "CONSTANT MaxArr = %d\nCONSTANT Wide = %s\nCONSTANT Quick = %s\nCONSTANT PrintMod = %d\nCONSTANT Importer = \"%s\"\nCONSTANT WordNA = {}\nCONSTANT Deviations = {%s}\nINIT Init\nNEXT Next\nCHECK_DEADLOCK FALSE\n"
 # deviation -> the invariant TLC must report when it is switched on (documents why the behaviour is a defect)
 DEV_BREAKS = {"F2_ForceMergeJoinsJoined": "InvMerge", "F3_WarningLinksIgnoredLine": "InvLinksAll",
               "F4_ReplaceKeepsStaleLinks": "InvLinksAll", "F15_MergeLinksOriginalKey": "InvLinksAll"}
+GTF_DIALECT = {"leading semicolon": False, "trailing semicolon": True, "quoted GFF2 values": True, "field separator": "; ", "keyval separator": " ",
+               "multival separator": ",", "fmt": "gtf", "repeated keys": False, "order": ["ID", "Name", "gene_id", "transcript_id"]}
 KNOWN_TEXT = {"F4_ReplaceKeepsStaleLinks": "merge_strategy='replace' keeps the level-1 relations of the replaced versions (Parent links of features that are no longer stored)"}
 
 
@@ -20,6 +22,8 @@ def execute(init_feats, cfg, steps, dbfn):
     import gffutils
     out = []
     kw = G.real_kwargs(cfg)
+    if cfg.get("importer") == "gtf":
+        kw["dialect"] = dict(GTF_DIALECT)
     try:
         with dbio.quiet():
             db = gffutils.create_db([G.real_feature(f) for f in init_feats], dbfn, force=True, **kw)
@@ -40,9 +44,10 @@ def execute(init_feats, cfg, steps, dbfn):
 def to_hist(c):
     k = c["split"]
     arrs = c["arrs"]
+    gtf = c["cfg"].get("importer") == "gtf"
     if k == 0:
-        return {"init": {"feats": c["parents"] + arrs, "cfg": c["cfg"], "dirs": []}, "steps": [], "rel": False}
-    return {"init": {"feats": c["parents"] + arrs[:k], "cfg": c["cfg"], "dirs": []},
+        return {"init": {"feats": c["parents"] + arrs, "cfg": c["cfg"], "dirs": [], "gtf": gtf}, "steps": [], "rel": False}
+    return {"init": {"feats": c["parents"] + arrs[:k], "cfg": c["cfg"], "dirs": [], "gtf": gtf},
             "steps": [{"op": "update", "feats": arrs[k:], "cfg": c["cfg"]}], "rel": False}
 
 
@@ -131,7 +136,7 @@ def run(ctx):
                 "(MC_DB05 with per-strategy declarative invariants, InvLinks, OneCandidate); every case executed from Feature objects and compared row by row "
                 "(attribute values as sets); D2: random longer collision sequences over two keys with several updates (Gen_DB). Non-trivial: >= 2 arrivals under one key "
                 "(>= 3 for merge/create_unique); distinct by (arrivals, strategy, fields, split).")
-    cfg = MC_CFG % (3, "TRUE" if thorough else "FALSE", "FALSE" if thorough else "TRUE", 3 if thorough else 19, "")
+    cfg = MC_CFG % (3, "TRUE" if thorough else "FALSE", "FALSE" if thorough else "TRUE", 3 if thorough else 19, "gff3", "")
     mc = ctx.tlc("MC_DB05", cfg + "".join("INVARIANT %s\n" % i for i in INVS), expect="inv", label="arrivals x strategies x fields x split", timeout=3000)
     if not mc.ok:
         ctx.violation({"tlc": "MC_DB05"}, "model:" + str(mc.violated), {"log": ctx.keep_log("MC_DB05", mc.out)})
@@ -139,14 +144,20 @@ def run(ctx):
     # each deviation, switched on, must break the invariant it is recorded against
     devres = {}
     for dev, inv in sorted(DEV_BREAKS.items()):
-        r = ctx.tlc("MC_DB05", MC_CFG % (3, "FALSE", "TRUE", 1000003, '"%s"' % dev) + "INVARIANT %s\n" % inv, expect="inv", label="deviation %s must break %s" % (dev, inv))
+        r = ctx.tlc("MC_DB05", MC_CFG % (3, "FALSE", "TRUE", 1000003, "gff3", '"%s"' % dev) + "INVARIANT %s\n" % inv, expect="inv", label="deviation %s must break %s" % (dev, inv))
         devres[dev] = r.violated
         if r.violated != inv:
             ctx.violation({"deviation": dev}, "model:deviation_not_a_defect", {"violated": r.violated})
     ctx.extra["deviations_break"] = devres
-    cases = mc.json
+    # the GTF importer resolves collisions through the same code path: gene lines keyed by gene_id
+    mg = ctx.tlc("MC_DB05", MC_CFG % (3 if thorough else 2, "FALSE", "TRUE", 5 if thorough else 2, "gtf", "") + "".join("INVARIANT %s\n" % i for i in INVS if "Links" not in i) + "INVARIANT InvGtfRels\n",
+                 expect="inv", label="the same arrivals through the GTF importer", timeout=3000)
+    if not mg.ok:
+        ctx.violation({"tlc": "MC_DB05 gtf"}, "model:" + str(mg.violated), {"log": ctx.keep_log("MC_DB05_gtf", mg.out)})
+        return
+    cases = mc.json + mg.json
     ctx.exhaustive = False
-    ctx.extra['cases_model_checked'] = mc.distinct
+    ctx.extra['cases_model_checked'] = mc.distinct + mg.distinct
     hists = [to_hist(c) for c in cases]
     work = [(h, ":memory:") for h in hists]
     observed = core.pmap(run_case, work)
